@@ -162,8 +162,8 @@ theorem C04_former_witness_roundtrips :
     parseNodeID [115, 61, 110, 115, 117, 61, 120, 59] = some (newString 0 [110, 115, 117, 61, 120, 59]) := by
   decide
 
-/-- what stays an error: a text with a ';' whose first part is neither a
-    namespace nor the string prefix (`abc=0;i=2`, `i=1;x`, `foo;bar`) -/
+/-- what stays an error: a text with a ';' whose first part is neither an `ns=`/`nsu=` part
+    nor begins with the string prefix (`abc=0;i=2`, `i=1;x`, `foo;bar`) -/
 theorem C04_malformed_namespace_rejected :
     parseNodeID [97, 98, 99, 61, 48, 59, 105, 61, 50] = none ∧
     parseNodeID [105, 61, 49, 59, 120] = none ∧
